@@ -230,7 +230,9 @@ Inductive targ := AType (t : ty) (pack : bool) | AVal (v : list tk) (pack : bool
 
 Definition type_start (h : tk) : bool := memN (kty h) pqname_start_tokens || is T_const h || is T_volatile h.
 
-(* CxxParseError inside the trial (codes 1, 2: the bounded stream raises it at its end too) means: not a type *)
+(* CxxParseError inside the trial (codes 1, 2: the bounded stream raises it at its end too; "arrays of references are illegal"
+   is a CxxParseError at the '[' and has code 1) means: not a type.  Code 3 inside the trial is an assertion of the
+   implementation, which the trial does not catch *)
 Definition soft (e : N) : dres (option ty) := if (e =? 1) || (e =? 2) then DOk None else DErr e.
 
 Definition targ_type (fuel : nat) (raw : list tk) : dres (option ty) :=
